@@ -58,7 +58,16 @@ def conclude(pid, spec, results, tier, seed, wall, kani=()):
     rule_counts = {}
     for r in results:
         if r.anchor_lost:
-            undecided.append('anchor lost in unit %s: %s' % (r.unit, r.anchor_lost))
+            # the changed code no longer has the shape the contracts are anchored in: no obligation, no verdict;
+            # same bounded fallback as for front-end errors (a violation only with a replayed failing input)
+            r.frontend_error = 'anchor lost: ' + r.anchor_lost
+            w = _frontend_fallback(pid, r, tier, seed)
+            if w is not None:
+                violations.append((r, w[0], w[1]))
+                failed_obl.add('%s [%s] bounded-differential-fallback' % (w[1]['fn'], r.mode))
+                fallback_hits.append(w)
+            else:
+                undecided.append('anchor lost in unit %s: %s' % (r.unit, r.anchor_lost))
             continue
         if getattr(r, 'probe', None):
             # stability probe (other Z3 seed): never a verdict, only a note in the evidence
@@ -193,7 +202,7 @@ def conclude(pid, spec, results, tier, seed, wall, kani=()):
     n_failed = len([o for o in all_obl if any(o.startswith(f.rsplit(' ', 1)[0]) and o.endswith(f.rsplit(' ', 1)[1]) for f in failed_obl)]) if failed_obl else 0
     n_failed = max(n_failed, min(len(failed_obl), n_obl))
     discharged = n_obl - n_failed
-    level = 'proof' if (rc == 0 and not known_hit) else 'other'
+    level = 'proof' if (rc == 0 and not known_hit and spec.get('level', 'proof') == 'proof') else 'other'
     ev = {
         'property_id': pid,
         'tier': tier,
@@ -245,7 +254,12 @@ def _frontend_fallback(pid, r, tier, seed):
     try:
         import witness
         import runner as _runner
-        fns = list(getattr(r, 'unit_obj', None).fn_contracts) if getattr(r, 'unit_obj', None) else []
+        uo = getattr(r, 'unit_obj', None)
+        if uo is None:
+            import importlib
+            ud = props.UNITS[r.unit]
+            uo = getattr(importlib.import_module(ud.get('module', r.unit)), ud.get('builder', 'build'))()
+        fns = [k for k, c in uo.fn_contracts.items() if not c.stub] + [k for k, c in uo.fn_contracts.items() if c.stub]
         seen_ops = set()
         for fn in fns:
             ops = tuple(witness.ops_for(fn))
@@ -253,7 +267,8 @@ def _frontend_fallback(pid, r, tier, seed):
                 continue
             seen_ops.add(ops)
             key = {'fn': fn, 'kind': 'frontend-fallback', 'clause': None, 'expr': ''}
-            w = witness.search(pid, r, None, key, tier, seed)
+            w = witness.search(pid, r, None, key, tier, seed, profile_pair=(('dev', 'release') if pid == 'C20' else None),
+                               budget=(300 if tier == 'thorough' else 60))
             if w:
                 d = _runner.Diag()
                 d.message = 'verifier front end rejected the changed code (%s); bounded differential search found a failing input' % str(r.frontend_error)[:200]
@@ -262,7 +277,7 @@ def _frontend_fallback(pid, r, tier, seed):
                 key['witness'] = w
                 res = (d, key)
                 break
-            if len(seen_ops) >= 6:
+            if len(seen_ops) >= 14:
                 break
     except Exception:
         res = None
